@@ -157,6 +157,7 @@ func (c tcase) argsModified() (mutated string) {
 		return ""
 	}
 	w.reset()
+	timeWatched++
 	c.argsModifiedIn(w)
 	if w.fault != "" {
 		return "a store into " + w.fault + " during the call (the argument's pages were read-only)"
@@ -165,6 +166,9 @@ func (c tcase) argsModified() (mutated string) {
 }
 
 var timeArena = newWatchArena()
+
+// timeWatched counts the watched runs of the pkg/time half (only its own goroutine touches it).
+var timeWatched int
 
 func (c tcase) argsModifiedIn(w *watchArena) (mutated string) {
 	lib.Catch(func() {
@@ -532,6 +536,10 @@ func compare(t *lib.Tie, mon *lib.Monitor, drv *lib.Driver, cases []tcase) {
 		t.Record(key, nontrivial, c, model[i], code)
 		mon.Eval(key, nontrivial, nil)
 		mon.Count(c.Op)
+		before := timeWatched
 		c.monitor(mon, code)
+		if timeWatched != before {
+			mon.Count("watch/run-on-read-only-arguments")
+		}
 	}
 }
